@@ -417,4 +417,76 @@ def r6_argument_agreement(chk):
 
 
 
-RULES = [r1_searcher_protocol, r2_nodeps_filter, r3_file_searchers, r4_stub, r5_package_delegation, r6_argument_agreement]
+def r7_guard_polarity(chk):
+    """the candidate file is read only when it exists and is a regular file; the header time is taken only from a
+    file with the right magic; every candidate loop can answer not-modified; rebuild skips all of it"""
+    model = chk.model
+    chk.doc('C10.R7', 'file searchers, by reachability under a valuation of the predicates: open(f)/os.stat(f)/'
+                      'get_data(f) run only when os.path.exists(f) and os.path.isfile(f) (or `f in <zip directory>`) '
+                      'hold; struct.unpack of the header only when the magic matches; nothing of this runs when '
+                      'rebuild is true; each loop over suffixes contains a not-modified answer reachable when the '
+                      'file is present and `<time> >= mtime`')
+    from vt.cfg import CFG
+    for rel, cname in SEARCHERS:
+        owner, fn = model.method(rel, cname, 'fileExists')
+        mod = owner.mod
+        cfg = CFG(fn)
+        p_rebuild = fn.args.args[3].arg
+        tag = '%s.fileExists' % cname
+        loops = [n for n in walk_no_nested(fn) if isinstance(n, ast.For)]
+        for li, loop in enumerate(loops):
+            reads = []
+            for c in ast.walk(loop):
+                if isinstance(c, ast.Call) and dotted_name(c.func) in ('open', 'os.stat') and c.args:
+                    reads.append((c, norm(c.args[0]), 'fs'))
+                if isinstance(c, ast.Call) and isinstance(c.func, ast.Attribute) and c.func.attr == 'get_data' and c.args:
+                    reads.append((c, norm(c.args[0]), 'zip'))
+                if isinstance(c, ast.Subscript) and norm(c.value).endswith('._files') and \
+                        isinstance(getattr(c, 'ctx', None), ast.Load):
+                    reads.append((c, norm(c.slice), 'zip'))
+            seen_keys = set()
+            for c, f, kind in reads:
+                key = '%s/loop%d/%s(%s)' % (tag, li + 1, norm(c.func) if isinstance(c, ast.Call) else 'directory-entry', f)
+                if key in seen_keys:
+                    continue
+                seen_keys.add(key)
+                node = cfg.node_of(common.stmt_of(c))
+                if kind == 'fs':
+                    needed = {'os.path.exists(%s)' % f: True, 'os.path.isfile(%s)' % f: True, p_rebuild: False}
+                else:
+                    zdir = [norm(n.comparators[0]) for n in ast.walk(loop) if isinstance(n, ast.Compare) and
+                            len(n.ops) == 1 and isinstance(n.ops[0], (ast.In, ast.NotIn)) and norm(n.left) == f]
+                    needed = {p_rebuild: False}
+                    if zdir:
+                        needed['%s in %s' % (f, zdir[0])] = True
+                    else:
+                        chk.ob('C10.R7', key + '/membership-test', False, where(mod, c),
+                               'zip directory read without a membership test of %s' % f)
+                common.requires(chk, 'C10.R7', key, cfg, mod, [node], needed,
+                                'the candidate must be tested before it is read')
+            for c in ast.walk(loop):
+                if isinstance(c, ast.Call) and dotted_name(c.func) == 'struct.unpack':
+                    b = [n for n in ast.walk(loop) if isinstance(n, ast.Compare) and len(n.ops) == 1 and
+                         isinstance(n.ops[0], ast.Eq) and norm(n.comparators[0]) == 'PY_MAGIC_NUMBER']
+                    chk.ob('C10.R7', '%s/loop%d/magic-test' % (tag, li + 1), len(b) == 1, where(mod, c), 'no magic test')
+                    if len(b) == 1:
+                        common.requires(chk, 'C10.R7', '%s/loop%d/header-time' % (tag, li + 1), cfg, mod,
+                                        [cfg.node_of(common.stmt_of(c))], {norm(b[0]): True},
+                                        'the header time is meaningful only behind the right magic number')
+            fresh = [x for x in ast.walk(loop) if isinstance(x, ast.Raise) and x.exc is not None and
+                     (model.exc_ancestors(mod, x.exc.func if isinstance(x.exc, ast.Call) else x.exc) or [''])[0] ==
+                     'PySmiFileNotModifiedError']
+            chk.ob('C10.R7', '%s/loop%d(%s)/answers-not-modified' % (tag, li + 1, norm(loop.iter)), bool(fresh),
+                   where(mod, loop), 'this candidate loop can never answer not-modified: an up-to-date file under one '
+                                     'of its suffixes is rebuilt every time')
+    chk.floor('C10.R7', 25, 'reads in candidate loops')
+
+
+
+def r8_wellformedness(chk):
+    rels = sorted(r for r in chk.model.modules if r.startswith(('pysmi/searcher/',)))
+    common.wellformedness(chk, 'C10.R8', rels, floor=10)
+
+
+
+RULES = [r1_searcher_protocol, r2_nodeps_filter, r3_file_searchers, r4_stub, r5_package_delegation, r6_argument_agreement, r7_guard_polarity, r8_wellformedness]
